@@ -83,6 +83,7 @@ func buildKeySubst(p *Prog) {
 		}
 	}
 	inlineAccessors(p, pkgs, declOf)
+	desugarShortCircuitReturns(p, pkgs)
 	buildCaseTags(p)
 	for _, pk := range pkgs {
 		info := pk.TypesInfo
@@ -731,6 +732,63 @@ func inlineAccessors(p *Prog, pkgs []*packages.Package, declOf map[*types.Func]*
 	for fd, fn := range candidates {
 		if !used[fn] {
 			inlinedAway[fd] = true
+		}
+	}
+}
+
+// desugarShortCircuitReturns rewrites (in memory) `return v && X` into `if !v { return false };
+// return X` and `return v || X` into `if v { return true }; return X` when v is a plain boolean
+// variable and the return has that single result. go/cfg does not split short-circuit operators;
+// with the branch made explicit the result correlation of spliced helpers (`k, ok := helper();
+// return ok && next(k)`) separates the paths on which the helper failed from the others.
+func desugarShortCircuitReturns(p *Prog, pkgs []*packages.Package) {
+	for _, pk := range pkgs {
+		if _, skip := noInlinePkgs[pk.PkgPath]; skip {
+			continue
+		}
+		info := pk.TypesInfo
+		for _, f := range pk.Syntax {
+			if strings.HasSuffix(p.Fset.Position(f.Pos()).Filename, "_test.go") {
+				continue
+			}
+			astutil.Apply(f, func(c *astutil.Cursor) bool {
+				rs, ok := c.Node().(*ast.ReturnStmt)
+				if !ok || len(rs.Results) != 1 || c.Index() < 0 {
+					return true
+				}
+				be, ok := ast.Unparen(rs.Results[0]).(*ast.BinaryExpr)
+				if !ok || (be.Op != token.LAND && be.Op != token.LOR) {
+					return true
+				}
+				id, ok := ast.Unparen(be.X).(*ast.Ident)
+				if !ok {
+					return true
+				}
+				v, _ := info.Uses[id].(*types.Var)
+				if v == nil {
+					return true
+				}
+				if bt, isB := v.Type().Underlying().(*types.Basic); !isB || bt.Info()&types.IsBoolean == 0 {
+					return true
+				}
+				lit := "false"
+				var cond ast.Expr = &ast.UnaryExpr{OpPos: be.Pos(), Op: token.NOT, X: id}
+				if be.Op == token.LOR {
+					lit, cond = "true", id
+				}
+				if tv, has := info.Types[id]; has {
+					info.Types[cond] = tv
+				}
+				litId := &ast.Ident{NamePos: rs.Pos(), Name: lit}
+				info.Uses[litId] = types.Universe.Lookup(lit)
+				if tv, has := info.Types[id]; has {
+					info.Types[litId] = types.TypeAndValue{Type: tv.Type}
+				}
+				early := &ast.IfStmt{If: rs.Pos(), Cond: cond, Body: &ast.BlockStmt{Lbrace: rs.Pos(), List: []ast.Stmt{&ast.ReturnStmt{Return: rs.Pos(), Results: []ast.Expr{litId}}}, Rbrace: rs.Pos()}}
+				c.InsertBefore(early)
+				c.Replace(&ast.ReturnStmt{Return: rs.Return, Results: []ast.Expr{be.Y}})
+				return true
+			}, nil)
 		}
 	}
 }
